@@ -208,6 +208,8 @@ def _where_indices(ex, st, m, line):
     st.assume(qforall([i], z3.Implies(z3.And(0 <= i, i < out.n), z3.And(a[i] >= 0, a[i] < m.n, m.cond(a[i]))), [a[i]]))
     i2 = fresh("q")
     st.assume(qforall([i2], z3.Implies(z3.And(0 <= i2, i2 + 1 < out.n), a[i2] < a[i2 + 1]), [a[i2]]))
+    i5, j5 = fresh("q"), fresh("r")
+    st.assume(qforall([i5, j5], z3.Implies(z3.And(0 <= i5, i5 < j5, j5 < out.n), a[i5] < a[j5]), [(a[i5], a[j5])]))
     # no position is missing: false before the first, between neighbours, after the last
     i3, p3 = fresh("q"), fresh("p")
     st.assume(qforall([i3, p3], z3.Implies(z3.And(0 <= i3, i3 + 1 < out.n, a[i3] < p3, p3 < a[i3 + 1]), z3.Not(m.cond(p3))),
